@@ -293,9 +293,9 @@ func (c *Ctx) ruleR06a(rule string) {
 							arg := k.Call.Args[1]
 							dep := false
 							if header != nil && dependsOn(arg, header, func(k *ssa.Call) bool {
-							sc := k.Call.StaticCallee()
-							return sc != nil && c.P.InLib(sc) && !ssax.IsParserSig(sc.Signature)
-						}) {
+								sc := k.Call.StaticCallee()
+								return sc != nil && c.P.InLib(sc) && !ssax.IsParserSig(sc.Signature)
+							}) {
 								dep = true
 							}
 							if u, ok := ssax.Strip(arg).(*ssa.UnOp); ok && u.Op == token.MUL {
